@@ -17,7 +17,7 @@ OB = "common.object"
 
 def models(P):
     idx = P.index
-    P.model(ClassModel("Shape", {"size": TTuple(TReal(), TReal(), TReal()), "type": TEnum(idx.lookup("common.shape:ShapeType"))},
+    P.model(ClassModel("Shape", {"size": TTuple(TReal(), TReal(), TReal()), "type": TEnum(idx.lookup("common.shape:ShapeType")), "footprint": TOpaque("polygon")},
                        repo_class=idx.lookup("common.shape:Shape")))
     P.model(ClassModel("ObjectState", {"position": TTuple(TReal(), TReal(), TReal()), "shape": TSObj("Shape")},
                        repo_class=idx.lookup(f"{OB}:ObjectState")))
@@ -25,8 +25,8 @@ def models(P):
                        repo_class=idx.lookup(f"{OB}:DynamicObject")))
 
 
-AREA = lambda o: f"uf_real('footprint_area', {o})"
-INTER = lambda a, b: f"uf_real('intersection_area', {a}, {b})"
+AREA = lambda o: f"poly_area({o}.state.shape.footprint)"
+INTER = lambda a, b: f"poly_area(poly_inter(footprint_of({a}), footprint_of({b})))"
 HEIGHT = lambda o: f"{o}.state.shape.size[2]"
 ZC = lambda o: f"{o}.state.position[2]"
 
@@ -38,15 +38,31 @@ def build(P):
     DO = TSObj("DynamicObject")
     DON = TSObj("DynamicObject", nullable=True)
     two = {"estimated_object": DO, "ground_truth_object": DO}
-    # ---------------------------------------------------------------- assumed contracts of the geometry library (shapely) and of the footprint
+    # ---------------------------------------------------------------- the geometry library (shapely) at ITS boundary: abstract polygons, intersection, area
+    from pyvc.externals import poly
+    P.install(poly.install)
+    foot_cut = Contract(f"{OB}:DynamicObject.get_footprint", params={},
+                        returns=lambda it, cf: poly.world_footprint(it, cf.vars["self"], it.getattr(it.getattr(it.getattr(cf.vars["self"], "state", None), "shape", None), "footprint", None)))
+    P.trust("shapely (externals/poly.py): a.intersection(b).area is a function of a and b, non-negative and at most the area of either operand; "
+            "DynamicObject.get_footprint() is a function of the object whose area equals the area of the object-frame footprint (rigid motion) — ASSUMED; "
+            "symmetry I(P,Q) = I(Q,P) and I(P,P) = area(P) are hypotheses of the lemmas that use them")
+    fcuts = {idx.lookup(f"{OB}:DynamicObject.get_footprint").fq: foot_cut}
+    P.verify(f"{OB}:DynamicObject.get_area_bev", name="DynamicObject.get_area_bev",
+             contract=Contract(f"{OB}:DynamicObject.get_area_bev", cut=False, params={"self": DO},
+                               ensures=E("area_of_the_footprint", f"result == {AREA('self')} and result >= 0")))
+    P.verify(f"{OM}:_get_area_intersection", name="_get_area_intersection[3-D boxes]",
+             contract=Contract(f"{OM}:_get_area_intersection", cut=False, params=two,
+                               ensures=E("area_of_the_intersection_of_the_two_world_footprints", f"result == {INTER('estimated_object', 'ground_truth_object')}",
+                                         "within_both_areas", f"0 <= result and result <= {AREA('estimated_object')} and result <= {AREA('ground_truth_object')}")),
+             extra_contracts=fcuts)
     area_cut = Contract(f"{OB}:DynamicObject.get_area_bev", params={}, returns=TReal(),
-                        ensures=E("named_positive_area", f"result == {AREA('self')} and result > 0"))
+                        requires=[],
+                        ensures=E("area_of_the_footprint", f"result == {AREA('self')} and result >= 0"))
     inter_cut = Contract(f"{OM}:_get_area_intersection", params={}, returns=TReal(),
-                         ensures=E("named_intersection_area_within_both", f"result == {INTER('estimated_object', 'ground_truth_object')} and 0 <= result and "
-                                                                          f"result <= {AREA('estimated_object')} and result <= {AREA('ground_truth_object')}"))
+                         ensures=E("area_of_the_intersection_of_the_two_world_footprints", f"result == {INTER('estimated_object', 'ground_truth_object')}",
+                                   "within_both_areas", f"0 <= result and result <= {AREA('estimated_object')} and result <= {AREA('ground_truth_object')}"))
     cuts = {idx.lookup(f"{OB}:DynamicObject.get_area_bev").fq: area_cut, idx.lookup(f"{OM}:_get_area_intersection").fq: inter_cut}
-    P.trust("shapely: Polygon.intersection(...).area is a function I of the two footprints with 0 <= I <= min(area P, area Q) (assumed contract of _get_area_intersection); "
-            "Polygon.area of a footprint is positive (assumed contract of get_area_bev); symmetry I(P,Q) = I(Q,P) and I(P,P) = area(P) are hypotheses of the lemmas that use them")
+    POS = lambda *objs: " and ".join(f"{AREA(o)} > 0" for o in objs)
     # ---------------------------------------------------------------- height overlap: pure arithmetic of the real function
     lo = lambda o: f"({ZC(o)} - {HEIGHT(o)} / 2)"
     hi = lambda o: f"({ZC(o)} + {HEIGHT(o)} / 2)"
@@ -79,6 +95,7 @@ def build(P):
     P.verify(f"{OM}:IOU2dMatching._calculate_matching_score", name="IOU2dMatching._calculate_matching_score",
              contract=Contract(f"{OM}:IOU2dMatching._calculate_matching_score", cut=False,
                                params={"self": mk2, "estimated_object": DO, "ground_truth_object": DON, "transforms": NONE},
+                               requires=E("boxes_of_positive_size", f"{AREA(E_)} > 0 and implies({G_} is not None, {AREA(G_)} > 0)"),
                                ensures=E("zero_without_ground_truth", f"implies({G_} is None, result == 0)",
                                          "intersection_over_union", f"implies({G_} is not None, result == {iou2})",
                                          "in_unit_interval", "0 <= result and result <= 1",
@@ -93,7 +110,7 @@ def build(P):
                                           f"{INTER('estimated_object', 'ground_truth_object')} <= {AREA('ground_truth_object')} and 0 <= uf_real('height_overlap', estimated_object, ground_truth_object) and "
                                           f"uf_real('height_overlap', estimated_object, ground_truth_object) <= {HEIGHT('estimated_object')} and "
                                           f"uf_real('height_overlap', estimated_object, ground_truth_object) <= {HEIGHT('ground_truth_object')}",
-                                "positive_areas", f"{AREA('estimated_object')} > 0 and {AREA('ground_truth_object')} > 0"))
+                                ))
     ci3 = idx.lookup(f"{OM}:IOU3dMatching")
     H = f"uf_real('height_overlap', {E_}, {G_})"
     V = lambda o: f"({AREA(o)} * {HEIGHT(o)})"
@@ -101,7 +118,7 @@ def build(P):
     P.verify(f"{OM}:IOU3dMatching._calculate_matching_score", name="IOU3dMatching._calculate_matching_score",
              contract=Contract(f"{OM}:IOU3dMatching._calculate_matching_score", cut=False,
                                params={"self": lambda it: it.ctx.new_cell("obj", {}, ci3), "estimated_object": DO, "ground_truth_object": DON, "transforms": NONE},
-                               requires=E("positive_heights", f"{HEIGHT(E_)} > 0 and implies({G_} is not None, {HEIGHT(G_)} > 0)"),
+                               requires=E("boxes_of_positive_size", f"{HEIGHT(E_)} > 0 and {AREA(E_)} > 0 and implies({G_} is not None, {HEIGHT(G_)} > 0 and {AREA(G_)} > 0)"),
                                ensures=E("zero_without_ground_truth", f"implies({G_} is None, result == 0)",
                                          "intersection_volume_over_union_volume", f"implies({G_} is not None, result == {iou3})")),
              extra_contracts={idx.lookup(f"{OB}:DynamicObject.get_volume").fq: vol_cut, idx.lookup(f"{OM}:_get_volume_intersection").fq: vi_cut})
